@@ -85,6 +85,14 @@ func init() {
 		"math.Min":                        ext۰math۰Min,
 		"math.NaN":                        ext۰math۰NaN,
 		"math.Sqrt":                       ext۰math۰Sqrt,
+		"math.Trunc":                      func(fr *frame, a []value) value { return math.Trunc(a[0].(float64)) },
+		"math.Floor":                      func(fr *frame, a []value) value { return math.Floor(a[0].(float64)) },
+		"math.Ceil":                       func(fr *frame, a []value) value { return math.Ceil(a[0].(float64)) },
+		"math.archTrunc":                  func(fr *frame, a []value) value { return math.Trunc(a[0].(float64)) },
+		"math.archFloor":                  func(fr *frame, a []value) value { return math.Floor(a[0].(float64)) },
+		"math.archCeil":                   func(fr *frame, a []value) value { return math.Ceil(a[0].(float64)) },
+		"math.Mod":                        func(fr *frame, a []value) value { return math.Mod(a[0].(float64), a[1].(float64)) },
+		"math.Pow":                        func(fr *frame, a []value) value { return math.Pow(a[0].(float64), a[1].(float64)) },
 		"os.Exit":                         ext۰os۰Exit,
 		"os.Getenv":                       ext۰os۰Getenv,
 		"reflect.New":                     ext۰reflect۰New,
